@@ -78,19 +78,34 @@ def gen_arg(rng, nxt, depth=0):
             d['k%d' % k] = fd
             tree.append(['p', ('h', fd)])
         return 'a{sh}', d, tree
-    if depth < 2:
+    if r < 0.96 and depth < 2:
         n = rng.randrange(0, 3)
         d = {}
         tree = []
         for k in range(n):
-            fd = nxt(fresh=True)
-            while fd in d:
-                fds.pop()
-                fd = base + 50 + len(fds)
-                fds.append(fd)
+            fd = nxt(fresh=True)          # dict keys must be pairwise distinct
             d[fd] = 'v%d' % k
             tree.append([('h', fd), 'p'])
         return 'a{hs}', d, tree
+    if depth < 2:
+        # containers of containers with several handles per element
+        shape = rng.choice(['aah', 'a(hh)', 'a{s(hh)}', 'a{sah}'])
+        n = rng.randrange(0, 3)
+        if shape == 'aah':
+            rows = [[nxt() for _ in range(rng.randrange(0, 3))] for _ in range(n)]
+            return shape, rows, [[('h', d) for d in row] for row in rows]
+        if shape == 'a(hh)':
+            rows = [[nxt(), nxt()] for _ in range(n)]
+            return shape, rows, [[('h', a), ('h', b)] for a, b in rows]
+        d, tree = {}, []
+        for k in range(n):
+            if shape == 'a{s(hh)}':
+                v = [nxt(), nxt()]
+            else:
+                v = [nxt() for _ in range(rng.randrange(0, 3))]
+            d['k%d' % k] = v
+            tree.append(['p', [('h', x) for x in v]])
+        return shape, d, tree
     return 'y', 3, 'p'
 
 
@@ -99,15 +114,18 @@ def gen_body(rng, base, want=None):
     within a message (stdout and stderr being the same file) and, through `base`, across messages."""
     fds = []
     repeat = rng.random() < 0.35
+    pool = []
 
     def nxt(fresh=False):
         if repeat and fds and not fresh and rng.random() < 0.5:
             fds.append(rng.choice(fds))
         else:
-            fds.append(base + len(fds))
+            fds.append(pool.pop())
         return fds[-1]
     for _ in range(200):
         del fds[:]
+        # arbitrary values in a random order (real descriptors are not monotone in the argument order)
+        pool[:] = rng.sample(range(base, base + 60), 60)
         n = rng.choice([0, 1, 1, 2, 3])
         parts = [gen_arg(rng, nxt) for _ in range(n)]
         if want is not None and len(fds) != want:
@@ -120,7 +138,7 @@ def gen_body(rng, base, want=None):
         return sig, [p[1] for p in parts], [p[2] for p in parts], list(fds)
     if want == 0:
         return None, None, [], []
-    ds = [base + i for i in range(want or 0)]
+    ds = rng.sample(range(base, base + 60), want or 0)
     return 'h' * len(ds), list(ds), [('h', d) for d in ds], ds
 
 
@@ -157,8 +175,16 @@ def build_raw(rng, mtype, sig, body, big, serial):
         headers.append([8, marshal.Signature(sig)])
     if oob:
         headers.append([9, marshal.UInt32(len(oob))])
+    # what crosses a bus carries a sender, often a destination; flags vary; the order of the fields is free
+    if rng.random() < 0.5:
+        headers.append([7, ':1.%d' % rng.randrange(1, 99)])
+    if rng.random() < 0.4:
+        headers.append([6, rng.choice([':1.7', 'a.b'])])
+    if rng.random() < 0.5:
+        rng.shuffle(headers)
+    flags = rng.choice([0, 0, 1, 2, 3])
     hdr = b''.join(marshal.marshal(message._headerFormat,
-                                   [ord('B') if big else ord('l'), mtype, 0, 1, len(bodyb), serial, headers],
+                                   [ord('B') if big else ord('l'), mtype, flags, 1, len(bodyb), serial, headers],
                                    lendian=lend)[1])
     return hdr + b'\0' * (-len(hdr) % 8) + bodyb, oob
 
@@ -206,6 +232,9 @@ def build_variant_msg(rng, base, want, big, serial):
     return hdr + b'\0' * (-len(hdr) % 8) + bodyb, fds, sig
 
 
+SENDER_DEFECTS = []
+
+
 def gen_msg(rng, i, want=None):
     """Message number i of a sequence.  -> dict(raw, fds, sig)"""
     marshal, message, _ = _mods()
@@ -213,7 +242,8 @@ def gen_msg(rng, i, want=None):
         raw, fds, sig = build_variant_msg(rng, 1000 * (i + 1), want, rng.random() < 0.3, i + 1)
         decl, idx = info_of(raw)
         if (decl or 0) != len(fds) or idx != list(range(len(fds))):
-            raise RuntimeError('variant message not built as intended: %r %r %r' % (decl, idx, fds))
+            # the hand-built message is not what was intended (parser or marshaller changed): not usable
+            return gen_msg(rng, i, want)
         return {'raw': raw, 'fds': fds, 'sig': sig}
     # mostly a range of its own per message; sometimes a range shared by all messages (values repeat
     # across messages)
@@ -223,12 +253,20 @@ def gen_msg(rng, i, want=None):
     serial = rng.choice([i + 1, 2573, 3338])
     if mtype == 1 and not big and rng.random() < 0.6:
         # the real sender
-        m = message.MethodCallMessage('/a', 'M', signature=sig, body=body, oobFDs=[])
-        raw, oob = m.rawMessage, list(m.oobFDs)
+        m = message.MethodCallMessage('/a', 'M', signature=sig, body=body, oobFDs=[],
+                                      destination=rng.choice([None, None, ':1.7', 'a.b']),
+                                      interface=rng.choice([None, 'a.b']),
+                                      expectReply=rng.random() < 0.7, autoStart=rng.random() < 0.7)
+        raw, oob = m.rawMessage, list(m.oobFDs or [])
+        if oob != fds:
+            # a defect of the SENDER: reported by run() as a violation with this body as the replay input;
+            # the receiver streams go on with the reference serializer
+            SENDER_DEFECTS.append({'sig': sig, 'body': repr(body), 'fds': fds, 'oob': oob})
+            raw, oob = build_raw(rng, mtype, sig, body, big, serial)
     else:
         raw, oob = build_raw(rng, mtype, sig, body, big, serial)
     if oob != fds:
-        raise RuntimeError('sender put the descriptors in an unexpected order: %r vs %r' % (oob, fds))
+        SENDER_DEFECTS.append({'sig': sig, 'body': repr(body), 'fds': fds, 'oob': oob, 'by': 'marshal.marshal'})
     return {'raw': raw, 'fds': fds, 'sig': sig or ''}
 
 
@@ -303,11 +341,17 @@ def recv_classes(ctx):
 
         class PServer(Rec, bus.BusProtocol):
             pass
+
+        from txdbus import client
+
+        class PClient(Rec, client.DBusClientConnection):
+            """The real client protocol as receiver (connectionAuthenticated runs before the hand-off)."""
+        P.PClient = PClient
         _CLS[ctx.repo] = (P, PServer)
     return _CLS[ctx.repo]
 
 
-def observe(ctx, events, mode='binary', script=''):
+def observe(ctx, events, mode='binary', script='', linux=False):
     from twisted.internet.testing import StringTransport
     from txdbus import protocol
     P, PServer = recv_classes(ctx)
@@ -334,12 +378,18 @@ def observe(ctx, events, mode='binary', script=''):
             p.authenticator = authentication.ClientAuthenticator
         elif mode == 'real-server':
             p = PServer()
+        elif mode == 'real-clientconn':
+            p = P.PClient()
         else:
             raise ValueError(mode)
         p.log = []
         p.effects = []
         p.factory = c04._FakeFactory()
-        p.makeConnection(StringTransport())
+        tr = StringTransport()
+        if linux and mode.endswith('server'):
+            protocol._is_linux = True
+            tr.socket = c04._FakeSocket()
+        p.makeConnection(tr)
         if mode.startswith('real'):
             wrap = Wrap(p._dbusAuth, p)
             p._dbusAuth = wrap
@@ -399,6 +449,8 @@ def judge(sc, o):
         pos += len(m['raw']) // 2
         if pos <= len(total):
             done += 1
+    if sc.get('mode', 'binary') != 'binary' and not o['auth']:
+        return None, None      # the handshake did not authenticate: authentication is not C20's business
     if o['crashed']:
         return 'receiver-exception', '%s escaped while descriptors were queued' % o['crashed']
     if [d['raw'] for d in o['log']] != [m['raw'] for m in msgs[:done]]:
@@ -430,7 +482,8 @@ class Batch:
         items, self.items = self.items, []
         if not items:
             return
-        obs = [observe(ctx, sc['events'], sc.get('mode', 'binary'), sc.get('script', '')) for _, sc, _ in items]
+        obs = [observe(ctx, sc['events'], sc.get('mode', 'binary'), sc.get('script', ''), sc.get('linux', False))
+               for _, sc, _ in items]
         out = ctx.model([model_line(sc, o['script']) for (_, sc, _), o in zip(items, obs)])
         for k, ((stream, sc, oracle), o) in enumerate(zip(items, obs)):
             withfd = any(d['args'] for d in o['log'])
@@ -445,6 +498,8 @@ class Batch:
                 il = impl_line(o, sc.get('mode', 'binary'))
                 if out[k] != il and not o['crashed']:
                     ctx.disagree(stream, sc, c04.clip(out[k]), c04.clip(il))
+            if oracle and sc.get('mode', 'binary') != 'binary' and not o['auth']:
+                ctx.stat('%s:not-authenticated(S3 only)' % stream)
             if oracle:
                 key, what = judge(sc, o)
                 if key:
@@ -559,16 +614,16 @@ def stream_recv_random(ctx, B):
     B.flush()
 
 
-def hs_scenario(mode, hs, script, msgs, events):
+def hs_scenario(mode, hs, script, msgs, events, linux=False):
     sc = scenario(msgs, events)
-    sc.update(mode=mode, handshake=hs.hex(), script=script)
+    sc.update(mode=mode, handshake=hs.hex(), script=script, linux=linux)
     return sc
 
 
 def handshake_of(rng, mode):
     """-> (handshake bytes, stub script)"""
     if mode.startswith('real'):
-        return c04.handshake_for(rng, mode), ''
+        return c04.handshake_for(rng, 'real-client' if mode == 'real-clientconn' else mode), ''
     lines = [rng.choice([b'AUTH X', b'', b'DATA', b'x']) for _ in range(rng.choice([0, 0, 1, 2]))] + [b'BEGIN']
     hs = b''.join(l + b'\r\n' for l in lines)
     if mode == 'stub-server':
@@ -581,10 +636,10 @@ def stream_recv_handshake(ctx, B):
     that carry the handshake.  Short cases: every subset of candidate cuts x every consistent slot
     assignment; then random ones."""
     rng = ctx.rng
-    modes = ['stub-client', 'stub-server', 'real-client', 'real-server']
-    n_seq = ctx.scale(quick=8, thorough=120)
+    modes = ['stub-client', 'stub-server', 'real-client', 'real-server', 'real-clientconn']
+    n_seq = ctx.scale(quick=10, thorough=120)
     for i in range(n_seq):
-        mode = modes[i % 4]
+        mode = modes[i % 5]
         hs, script = handshake_of(rng, mode)
         n = rng.choice([1, 2, 2])
         wants = [rng.choice([1, 1, 2, 0]) for _ in range(n)]
@@ -603,7 +658,11 @@ def stream_recv_handshake(ctx, B):
             cands.add(pos)
             cands.add(pos - 1)
         cands = sorted(c for c in cands if 0 < c < len(stream))
-        cands = cands[:7]
+        if len(cands) > 7:
+            # keep the end of the handshake, spread the rest over the whole stream
+            keep = [c for c in cands if H - 1 <= c <= H + 1]
+            others = [c for c in cands if c not in keep]
+            cands = sorted(keep + rng.sample(others, 7 - len(keep)))
         shifted = [{'raw': b'\0' * H + msgs[0]['raw'], 'fds': msgs[0]['fds']}] + msgs[1:]
         for k in range(len(cands) + 1):
             for cs in itertools.combinations(cands, k):
@@ -613,7 +672,7 @@ def stream_recv_handshake(ctx, B):
                     B.add('recv-handshake', hs_scenario(mode, hs, script, msgs, interleave(reads, fds, slots)))
     n = ctx.scale(quick=600, thorough=12000)
     for i in range(n):
-        mode = modes[i % 4]
+        mode = modes[i % 5]
         hs, script = handshake_of(rng, mode)
         k = rng.choice([1, 2, 3, 5])
         msgs = [gen_msg(rng, j) for j in range(k)]
@@ -631,7 +690,23 @@ def stream_recv_handshake(ctx, B):
         shifted = [{'raw': b'\0' * len(hs) + msgs[0]['raw'], 'fds': msgs[0]['fds']}] + msgs[1:]
         dl = deadlines(shifted, reads)
         B.add('recv-handshake', hs_scenario(mode, hs, script, msgs,
-                                            interleave(reads, fds, random_slots(rng, dl, len(reads)))))
+                                            interleave(reads, fds, random_slots(rng, dl, len(reads))),
+                                            linux=mode.endswith('server') and rng.random() < 0.5))
+    B.flush()
+
+
+def stream_recv_deep_queue(ctx, B):
+    """More than 64 descriptors queued before the first message is complete (30-40 messages x up to 3
+    descriptors, all arriving ahead of the bytes)."""
+    rng = ctx.rng
+    for _ in range(ctx.scale(quick=6, thorough=60)):
+        msgs = [gen_msg(rng, i, want=rng.choice([2, 3, 3])) for i in range(rng.randrange(30, 41))]
+        stream = b''.join(m['raw'] for m in msgs)
+        fds = [d for m in msgs for d in m['fds']]
+        reads = c04.random_partition(rng, stream)
+        ev = ['f%d' % d for d in fds] + ['r' + r.hex() for r in reads]
+        ctx.stat('recv-random:queued-ahead=%s' % c04.bucket(len(fds)))
+        B.add('recv-random', scenario(msgs, ev))
     B.flush()
 
 
@@ -700,6 +775,11 @@ def sender_obs(m, calls):
 
 
 def judge_sender(fds, obs_line, decl, idx, oob, calls):
+    """The statement: "the sender transmits a message's descriptors in argument order ahead of its bytes and
+    declares their count in the header".  So: one sendFileDescriptor per descriptor ARGUMENT, in argument
+    order (a sender that transmits a repeated descriptor once is not in argument order with the declared
+    count - and txdbus's receiver, which indexes by argument position, would misattribute), header = number of
+    descriptor arguments (absent for 0), index values 0..k-1, everything before the single write."""
     k = len(fds)
     if (decl or 0) != k or (decl is not None and k == 0 and decl != 0):
         return 'sender-header-count', 'unix_fds header %r for %d descriptor arguments' % (decl, k)
@@ -799,11 +879,16 @@ def run(ctx):
     for name, data in ctx.corpus():
         run_corpus_entry(ctx, B, data)
     B.flush()
+    del SENDER_DEFECTS[:]
+    stream_sender(ctx)
     stream_recv_exhaustive(ctx, B)
     stream_recv_random(ctx, B)
+    stream_recv_deep_queue(ctx, B)
     stream_recv_handshake(ctx, B)
     stream_recv_malformed(ctx, B)
-    stream_sender(ctx)
+    for d in SENDER_DEFECTS[:20]:
+        ctx.violation('sender-oob-order', 'the out-of-band list of a marshalled body is %r, its descriptor arguments '
+                      'are %r (argument order)' % (d['oob'], d['fds']), inp=d, observed=d['oob'], expected=d['fds'])
 
 
 def replay(ctx, data):
